@@ -50,6 +50,9 @@ impl Vm {
                     self.stack.clear();
                     self.bp = 0;
                     self.ep = usize::MAX;
+                    // A failed evaluation cannot be resumed: asking for another slice
+                    // reports invalid bytecode, as it does after a completed one
+                    self.ip.1 = self.lambda().bc.len();
                     // Give the collector the chance it gets after a completed
                     // evaluation; otherwise a session of failing evaluations never
                     // collects and its heap grows without bound.
